@@ -27,6 +27,8 @@ theorem fact_retry_arithmetic :
     `retry.Attempts(attempts)` -/
 theorem fact_retry_backoff :
     Facts.C14.retryDelayDoublings = 1 ∧
+    Facts.C14.retryDelayInit = "p.retryDelay" ∧
+    Facts.C14.retryDoublingLoop = "for i := 0; i < initialCount; i++ { delay *= 2; }" ∧
     "retry.Attempts(attempts)" ∈ Facts.C14.retryOptions ∧
     "retry.Delay(delay)" ∈ Facts.C14.retryOptions ∧
     "retry.MaxJitter(p.retryDelay)" ∈ Facts.C14.retryOptions ∧
@@ -378,6 +380,26 @@ theorem delivered_at_least_once (c : Cfg) (ops : List Op) (order : List Nat) (r 
     · exact .inr (.inr (restart_delivers _ order s r j hso (hinv.dagLt r (hinv.admDag r ty hadm)) hj hctx))
   · exact .inl hc
 
+/-- **Run re-reads the shelf**: Run resumes its snapshot one job at a time; an event whose completion record landed while
+    the loop was busy with an earlier job (its job is gone from the shelf: `Finished` by the payload handler or by the
+    operator, with `completed_job_gone` for the reason) is not delivered by the rest of the loop - whatever the
+    snapshot `l` contains - and it stays gone. -/
+theorem resume_skips_event_finished_meanwhile (c : Cfg) (s r : Nat) (l : List (Nat × Nat)) (σ : St) (acc : List (Nat × Nat))
+    (h : σ.shelf s r = none) :
+    ∃ new, (runCalls c s l σ acc).1.ledger = new ++ σ.ledger ∧ (∀ e, e ∈ new → e.isCallOf s r = false) ∧
+      (runCalls c s l σ acc).1.shelf s r = none :=
+  runCalls_no_call_of_absent s r l σ acc h
+
+/-- non-vacuity: job 1 of vcr_vcs is in the snapshot, is finished before the loop reaches it, and is not called -/
+def resumeState : St :=
+  run (wCfg true allDone) init [.add { ref := 0, withPayload := true }, .add { ref := 1, withPayload := true }, .crash]
+
+example : (1, 0) ∈ runSnapshot (wCfg true allDone) resumeState 3 ∧
+    ((runCalls (wCfg true allDone) 3 (runSnapshot (wCfg true allDone) resumeState 3) (finishedExt resumeState 3 1 false) []).1.ledger.filter
+      (Entry.isCallOf 3 1)) = [] ∧
+    ((runCalls (wCfg true allDone) 3 (runSnapshot (wCfg true allDone) resumeState 3) (finishedExt resumeState 3 1 false) []).1.ledger.filter
+      (Entry.isCallOf 3 0)).length = 1 := by decide
+
 /-! ### eventual_delivery, failed_visible -/
 
 /-- **eventual_delivery**: let `σ0` be ANY state (e.g. what a stop left behind) without context-error jobs, and assume
@@ -493,6 +515,35 @@ theorem delay_doubles (d maxDelay base n : Nat) (h : d * 2 ^ base * 2 ^ (n + 1) 
   have e : d * 2 ^ base * 2 ^ (n + 1) = 2 * (d * 2 ^ base * 2 ^ n) := by
     rw [Nat.pow_succ, Nat.mul_comm (2 ^ n) 2, ← Nat.mul_assoc, Nat.mul_comm _ 2, Nat.mul_assoc]
   omega
+
+/-- **the back-off continues across a restart**: a job resumed by Run with `k` recorded failures starts its loop with
+    `initialCount = k + 1`; its n-th sleep equals the (k+n)-th sleep of a loop that was never interrupted -/
+theorem resume_delay_continues (d maxDelay k n : Nat) : backoff d maxDelay (k + 1) n = backoff d maxDelay 1 (k + n) := by
+  unfold backoff
+  have e : d * 2 ^ (k + 1) * 2 ^ n = d * 2 ^ 1 * 2 ^ (k + n) := by
+    rw [Nat.mul_assoc, Nat.mul_assoc, ← Nat.pow_add, ← Nat.pow_add]
+    congr 2; omega
+  rw [e]
+
+/-- hence the delay never falls back after a restart: every sleep of the resumed loop is at least every sleep the job
+    had seen before (sleep j of the uninterrupted loop, j ≤ k + n) -/
+theorem resume_delay_monotone (d maxDelay k n j : Nat) (hj : j ≤ k + n) :
+    backoff d maxDelay 1 j ≤ backoff d maxDelay (k + 1) n := by
+  rw [resume_delay_continues d maxDelay k n]
+  unfold backoff
+  have h : d * 2 ^ 1 * 2 ^ j ≤ d * 2 ^ 1 * 2 ^ (k + n) := Nat.mul_le_mul_left _ (Nat.pow_le_pow_right (by decide) hj)
+  exact Nat.le_min.mpr ⟨Nat.min_le_left _ _, Nat.le_trans (Nat.min_le_right _ _) h⟩
+
+/-- in the model the loop started for a job with `k` recorded failures carries `base = k + 1` -/
+theorem spawn_base_is_recorded_failures_plus_one (c : Cfg) (σ : St) (s r k : Nat) (t : Task)
+    (ht : t ∈ (spawn c σ s r k).running) (hn : t ∉ σ.running) : t.base = k + 1 ∧ t.n = 0 := by
+  unfold spawn at ht
+  split at ht
+  · simp only [List.mem_append, List.mem_singleton] at ht
+    rcases ht with ht | ht
+    · exact absurd ht hn
+    · subst ht; exact ⟨rfl, rfl⟩
+  · exact absurd ht hn
 
 example : backoff 1000000000 86400000000000 1 0 = 2000000000 ∧ backoff 1000000000 86400000000000 1 18 = 86400000000000 := by decide
 
